@@ -88,7 +88,7 @@ func Analyze(o *Obs, p *pgen.Program) (*pgen.Model, *Report) {
 				prop = "C03"
 				what = fmt.Sprintf("stage call %s %s is enabled (args %s) but no job of it was executed", inv.Path, inv.Context, short(mapOf(inv.Args)))
 			}
-			r.add(prop, "args:"+classify(p, inv.Path), what, nil)
+			r.add(prop, "args:"+classify(p, inv.Path)+aliasSuffix(p, m, inv.Path), what, nil)
 			if prop == "C01" {
 				// also a count problem if the number of forks differs
 				continue
@@ -123,7 +123,7 @@ func Analyze(o *Obs, p *pgen.Program) (*pgen.Model, *Report) {
 			prop := "C01"
 			what := fmt.Sprintf("stage call %s fork %s executed with args %s which no binding evaluation denotes; expected: %s",
 				f.CallPath, f.Dir, short(f.Args), strings.Join(expect, " ; "))
-			sig := "unexpected-exec:" + classify(p, f.CallPath)
+			sig := "unexpected-exec:" + classify(p, f.CallPath) + aliasSuffix(p, m, f.CallPath)
 			if len(expect) == 0 {
 				prop = "C03"
 				what = fmt.Sprintf("stage call %s fork %s executed (args %s) although the call is disabled or has no fork for it",
@@ -525,6 +525,62 @@ func classify(p *pgen.Program, callPath string) string {
 		pl = p.Pipeline(call.Callee)
 	}
 	return sb.String()
+}
+
+// mappedStms returns, for every map call statement on the static path of a
+// stage call, the statement's identity (pipeline definition + call name)
+// mapped to the instance path at which it occurs.
+func mappedStms(p *pgen.Program, callPath string) map[string]string {
+	out := map[string]string{}
+	parts := strings.Split(callPath, "/")
+	pl := p.Pipeline(parts[0])
+	for i := 1; i < len(parts) && pl != nil; i++ {
+		var call *pgen.Call
+		for _, c := range pl.Calls {
+			if c.Name() == parts[i] {
+				call = c
+			}
+		}
+		if call == nil {
+			break
+		}
+		if call.Map {
+			out[pl.Name+"::"+call.Name()] = strings.Join(parts[:i+1], "/")
+		}
+		pl = p.Pipeline(call.Callee)
+	}
+	return out
+}
+
+// aliasSuffix marks stage calls which consume data produced under another
+// instance of one of their own enclosing map call statements (the same
+// pipeline definition instantiated twice, one instance feeding the other).
+func aliasSuffix(p *pgen.Program, m *pgen.Model, callPath string) string {
+	mine := mappedStms(p, callPath)
+	if len(mine) == 0 {
+		return ""
+	}
+	for _, inv := range m.Invs {
+		if inv.Path != callPath {
+			continue
+		}
+		for _, d := range inv.Deps {
+			for id, inst := range mappedStms(p, d.Path) {
+				if other, ok := mine[id]; ok && other != inst {
+					return ":fed-by-other-instance-of-own-map-call"
+				}
+			}
+		}
+	}
+	return ""
+}
+
+// AliasSuffix is aliasSuffix for other packages.
+func AliasSuffix(p *pgen.Program, m *pgen.Model, callPath string) string {
+	if m == nil {
+		return ""
+	}
+	return aliasSuffix(p, m, callPath)
 }
 
 // CheckTopOuts compares the top-level outputs (C01 part 2, C04/C13 final
